@@ -43,6 +43,7 @@ pub fn drive<T>(fut: impl Future<Output = T>, cap: u64) -> Drive<T> {
     let _ = sim_core::take_last_panic();
     loop {
         polls += 1;
+        sim_core::heartbeat();
         let before = cw.0.load(Ordering::SeqCst);
         let r = catch_unwind(AssertUnwindSafe(|| fut.as_mut().poll(&mut cx)));
         match r {
